@@ -21,7 +21,7 @@ theorem firstFrom_none {f : Nat → Bool} : ∀ {d p : Nat}, firstFrom f p d = n
     intro p h j h1 h2
     unfold firstFrom at h
     split at h
-    · exact Option.noConfusion h
+    · cases h
     · rename_i hf
       by_cases hj : j = p
       · subst hj; simpa using hf
@@ -31,7 +31,7 @@ theorem firstFrom_some {f : Nat → Bool} : ∀ {d p i : Nat}, firstFrom f p d =
     p ≤ i ∧ i < p + d ∧ f i = true ∧ ∀ j, p ≤ j → j < i → f j = false := by
   intro d
   induction d with
-  | zero => intro p i h; exact Option.noConfusion h
+  | zero => intro p i h; cases h
   | succ d ih =>
     intro p i h
     unfold firstFrom at h
@@ -91,25 +91,267 @@ theorem fast_match_step (L : Layout t buf sl) (ht : cfg.lineTerm.asByte = t) (hb
     (hpt : cfg.passthru = false) {v i : Nat} {st : Core} (hI : Inv cfg sl v st) (hvi : v ≤ i)
     (hi : i < sl.length) (hu : Unsel sl v i) (hs : selAt sl i = true)
     (hacl : AclOK cfg.afterContext sl v st.afterContextLeft) :
-    ∃ st1 st2 st3, afterContextByLine cfg allCont buf st (offsetAt sl i) = (st1, .ok true) ∧
+    ∃ st1 st2, afterContextByLine cfg allCont buf st (offsetAt sl i) = (st1, .ok true) ∧
       beforeContextByLine cfg allCont buf st1 (offsetAt sl i) = (st2, .ok true) ∧
-      (∀ q, sinkMatched cfg allCont buf { st2 with pos := q } (span sl i) = (st3 q, .ok true) ∧
-        Inv cfg sl (i + 1) (st3 q) ∧ (st3 q).afterContextLeft = cfg.afterContext ∧ (st3 q).pos = q ∧
-        (st3 q).hasMatched = st.hasMatched) := by
+      (∀ q, ∃ st3, sinkMatched cfg allCont buf { st2 with pos := q } (span sl i) = (st3, .ok true) ∧
+        Inv cfg sl (i + 1) st3 ∧ st3.afterContextLeft = cfg.afterContext ∧ st3.pos = q ∧
+        st3.hasMatched = st.hasMatched) := by
   obtain ⟨st1, e1, hI1, hacl1, haclok1, hf1⟩ := afterCtx_step L ht hbin hI hvi (by omega) hu hacl
   have hz : v + min st.afterContextLeft (i - v) < i → st1.afterContextLeft = 0 := by
     intro h; rw [hacl1]; omega
   obtain ⟨v2, st2, e2, hI2, hv2, hskip2, hacl2, hf2⟩ :=
     beforeCtx_step L ht hbin hI1 (by omega) hi (hu.mono (by omega) (Nat.le_refl _)) hs haclok1 hz
       (fun h => by rw [hpt] at h; exact Bool.noConfusion h)
-  have hstep : ∀ q, ∃ st3, sinkMatched cfg allCont buf { st2 with pos := q } (span sl i) = (st3, .ok true) ∧
-      Inv cfg sl (i + 1) st3 ∧ st3.afterContextLeft = cfg.afterContext ∧ st3.pos = q ∧
-      st3.hasMatched = st.hasMatched := by
-    intro q
+  refine ⟨st1, st2, e1, e2, ?_⟩
+  · intro q
     have hI2' : Inv cfg sl v2 { st2 with pos := q } := hI2.of_fields rfl rfl rfl rfl rfl rfl rfl
     obtain ⟨st3, e3, hI3, hacl3, hf3⟩ := sinkMatched_step L ht hbin hI2' hv2 hi hskip2 (kind_matched hs)
     exact ⟨st3, e3, hI3, hacl3, hf3.1, by rw [hf3.2.1]; show st2.hasMatched = _; rw [hf2.2.1, hf1.2.1]⟩
-  refine ⟨st1, st2, fun q => Classical.choose (hstep q), e1, e2, fun q => Classical.choose_spec (hstep q)⟩
+
+
+/-- what the fast loop has established when it ends: everything from `v` on is unselected -/
+structure EndInv (cfg : Config) (sl : List SLine) (v : Nat) (st : Core) : Prop where
+  inv : Inv cfg sl v st
+  vn : v ≤ sl.length
+  unsel : Unsel sl v sl.length
+  acl : AclOK cfg.afterContext sl v st.afterContextLeft
+
+theorem pmAt_noninv (hinv : cfg.invertMatch = false) (j : Nat) : pmAt cfg sl j = selAt sl j := by
+  simp [pmAt, hinv]
+
+theorem pmAt_inv (hinv : cfg.invertMatch = true) (j : Nat) : pmAt cfg sl j = !selAt sl j := by
+  simp [pmAt, hinv]
+
+/-- the fast loop without inversion and without `stop_on_nonmatch` -/
+theorem fastLoop_noninv (L : Layout t buf sl) (ht : cfg.lineTerm.asByte = t) (hbin : cfg.binary = .none)
+    (hpt : cfg.passthru = false) (hlen : buf.length = offsetAt sl sl.length)
+    (hinv : cfg.invertMatch = false) (hstop : cfg.stopOnNonmatch = false) (hfind : FindSpec cfg m buf sl) :
+    ∀ (fuel p v : Nat) (st : Core), FastInv cfg sl v p st → p ≤ sl.length → sl.length - p < fuel →
+      ∃ st' v', fastLoop cfg m allCont buf fuel st = (st', .ok none) ∧ EndInv cfg sl v' st' := by
+  intro fuel
+  induction fuel with
+  | zero => intro p v st _ _ h; omega
+  | succ fuel ih =>
+    intro p v st hF hp hfuel
+    have hd : (buf.drop st.pos).isEmpty = decide (p = sl.length) := by
+      rw [hF.pos]; exact drop_isEmpty_iff L hlen hp
+    rw [fastLoop, hd]
+    by_cases hpn : p = sl.length
+    · subst hpn
+      exact ⟨st, v, by simp, ⟨hF.inv, hF.vp, hF.unsel, hF.acl⟩⟩
+    · simp only [hpn, decide_false, Bool.false_eq_true, if_false, hstop, Bool.false_and, hinv]
+      rw [hfind st p hp hF.pos]
+      cases hff : firstFrom (pmAt cfg sl) p (sl.length - p) with
+      | none =>
+        have hnone := firstFrom_none hff
+        refine ⟨st, v, rfl, ⟨hF.inv, by have := hF.vp; omega, ?_, hF.acl⟩⟩
+        intro j h1 h2
+        by_cases hj : j < p
+        · exact hF.unsel j h1 hj
+        · rw [← pmAt_noninv hinv]; exact hnone j (by omega) (by omega)
+      | some i =>
+        obtain ⟨hpi, hin, hsi, hbefore⟩ := firstFrom_some hff
+        rw [pmAt_noninv hinv] at hsi
+        have hu : Unsel sl v i := by
+          intro j h1 h2
+          by_cases hj : j < p
+          · exact hF.unsel j h1 hj
+          · rw [← pmAt_noninv hinv]; exact hbefore j (by omega) h2
+        have hi : i < sl.length := by omega
+        have hIm : Inv cfg sl v { st with hasMatched := true } := hF.inv.of_fields rfl rfl rfl rfl rfl rfl rfl
+        obtain ⟨st1, st2, e1, e2, h3⟩ :=
+          fast_match_step L ht hbin hpt hIm (by have := hF.vp; omega) hi hu hsi hF.acl
+        obtain ⟨st3, e3, hI3, hacl3, hpos3, _⟩ := h3 (offsetAt sl (i + 1))
+        have hF3 : FastInv cfg sl (i + 1) (i + 1) st3 :=
+          ⟨hI3, Nat.le_refl _, fun j h1 h2 => by omega, by rw [hacl3]; exact aclOK_match hsi, hpos3⟩
+        obtain ⟨st', v', e', hE'⟩ := ih (i + 1) (i + 1) st3 hF3 (by omega) (by omega)
+        refine ⟨st', v', ?_, hE'⟩
+        simp only [Option.map_some]
+        have hs : (span sl i).s = offsetAt sl i := rfl
+        have he : (span sl i).e = offsetAt sl (i + 1) := rfl
+        by_cases hmc : cfg.maxContext > 0
+        · simp only [hmc, if_true, hs, he, e1, e2, e3]
+          exact e'
+        · -- no context configured: the skipped calls would have been no-ops
+          have hA : cfg.afterContext = 0 := by unfold Config.maxContext at hmc; omega
+          have hB : cfg.beforeContext = 0 := by unfold Config.maxContext at hmc; omega
+          have hacl0 : st.afterContextLeft = 0 := acl_zero_of_noctx hF.acl hA
+          have e1' : st1 = { st with hasMatched := true } := by
+            have : afterContextByLine cfg allCont buf { st with hasMatched := true } (offsetAt sl i)
+                = ({ st with hasMatched := true }, .ok true) := by simp [afterContextByLine, hacl0]
+            rw [this] at e1; exact (Prod.mk.inj e1).1.symm
+          have e2' : st2 = st1 := by
+            have : beforeContextByLine cfg allCont buf st1 (offsetAt sl i) = (st1, .ok true) := by
+              simp [beforeContextByLine, hB]
+            rw [this] at e2; exact (Prod.mk.inj e2).1.symm
+          subst e2'
+          subst e1'
+          dsimp only at e3
+          simp only [hmc, if_false, he, e3]
+          exact e'
+
+
+/-- context, then `sink_matched` for each line of the run `[p, q)` of selected lines
+(the body of `match_by_line_fast_invert` once the run is known to be non-empty) -/
+theorem invert_run (L : Layout t buf sl) (ht : cfg.lineTerm.asByte = t) (hbin : cfg.binary = .none)
+    (hpt : cfg.passthru = false) {v p q : Nat} {st : Core} (hI : Inv cfg sl v st) (hvp : v ≤ p) (hpq : p < q)
+    (hq : q ≤ sl.length) (hu : Unsel sl v p) (hsel : ∀ j, p ≤ j → j < q → selAt sl j = true)
+    (hacl : AclOK cfg.afterContext sl v st.afterContextLeft) :
+    ∃ st1 st2 st3, afterContextByLine cfg allCont buf st (offsetAt sl p) = (st1, .ok true) ∧
+      beforeContextByLine cfg allCont buf st1 (offsetAt sl p) = (st2, .ok true) ∧
+      matchedLoop cfg allCont buf (stepLines cfg.lineTerm.asByte buf (offsetAt sl p) (offsetAt sl q)) st2
+        = (st3, .ok true) ∧
+      Inv cfg sl q st3 ∧ st3.afterContextLeft = cfg.afterContext ∧ st3.pos = st.pos := by
+  have hp : p < sl.length := by omega
+  obtain ⟨st1, e1, hI1, hacl1, haclok1, hf1⟩ := afterCtx_step L ht hbin hI hvp (by omega) hu hacl
+  have hz : v + min st.afterContextLeft (p - v) < p → st1.afterContextLeft = 0 := by
+    intro h; rw [hacl1]; omega
+  obtain ⟨v2, st2, e2, hI2, hv2, hskip2, hacl2, hf2⟩ :=
+    beforeCtx_step L ht hbin hI1 (by omega) hp (hu.mono (by omega) (Nat.le_refl _))
+      (hsel p (Nat.le_refl _) hpq) haclok1 hz (fun h => by rw [hpt] at h; exact Bool.noConfusion h)
+  obtain ⟨st3, e3, hI3, hacl3, _, hf3⟩ :=
+    matchedLoop_spec L ht hbin (q - p) p v2 st2 hI2 hv2 (fun h => by omega) (by omega) hskip2
+      (fun j h1 h2 => kind_matched (hsel j h1 (by omega)))
+  have eq : p + (q - p) = q := by omega
+  rw [eq] at hI3
+  refine ⟨st1, st2, st3, e1, e2, ?_, hI3, hacl3 (by omega), by rw [hf3.1, hf2.1, hf1.1]⟩
+  rw [ht, L.stepLines_index p q (by omega) hq]
+  exact e3
+
+/-- one call of `match_by_line_fast_invert` with the scan position at the start of line `p < n` -/
+theorem fast_iter_inv (L : Layout t buf sl) (ht : cfg.lineTerm.asByte = t) (hbin : cfg.binary = .none)
+    (hpt : cfg.passthru = false) (hlen : buf.length = offsetAt sl sl.length)
+    (hinv : cfg.invertMatch = true) (hfind : FindSpec cfg m buf sl)
+    {v p : Nat} {st : Core} (hF : FastInv cfg sl v p st) (hp : p < sl.length) :
+    ∃ st' v' p', matchByLineFastInvert cfg m allCont buf st = (st', .ok true) ∧
+      FastInv cfg sl v' p' st' ∧ p < p' ∧ p' ≤ sl.length := by
+  unfold matchByLineFastInvert
+  rw [hfind st p (by omega) hF.pos]
+  cases hff : firstFrom (pmAt cfg sl) p (sl.length - p) with
+  | none =>
+    have hnone := firstFrom_none hff
+    have hsel : ∀ j, p ≤ j → j < sl.length → selAt sl j = true := by
+      intro j h1 h2
+      have := hnone j h1 (by omega)
+      rw [pmAt_inv hinv] at this
+      simpa using this
+    have hIm : Inv cfg sl v { st with pos := buf.length, hasMatched := true } :=
+      hF.inv.of_fields rfl rfl rfl rfl rfl rfl rfl
+    obtain ⟨st1, st2, st3, e1, e2, e3, hI3, hacl3, hpos3⟩ :=
+      invert_run L ht hbin hpt hIm hF.vp hp (Nat.le_refl _) hF.unsel hsel hF.acl
+    refine ⟨st3, sl.length, sl.length, ?_, ⟨hI3, Nat.le_refl _, fun j h1 h2 => by omega, ?_, ?_⟩, hp, Nat.le_refl _⟩
+    · have hne : ¬ ((buf.length - st.pos == 0) = true) := by
+        have := L.off_lt hp (Nat.le_refl _)
+        rw [hF.pos, hlen]; simp; omega
+      simp only [Option.map_none, hne]
+      rw [hF.pos, hlen] at *
+      simp only [e1, e2]
+      exact e3
+    · rw [hacl3]
+      have := hsel (sl.length - 1) (by omega) (by omega)
+      have h2 := aclOK_match (A := cfg.afterContext) this
+      have e : sl.length - 1 + 1 = sl.length := by omega
+      rw [e] at h2; exact h2
+    · rw [hpos3]; exact hlen
+  | some j =>
+    obtain ⟨hpj, hjn, hpmj, hbefore⟩ := firstFrom_some hff
+    have hj : j < sl.length := by omega
+    have hsj : selAt sl j = false := by
+      rw [pmAt_inv hinv] at hpmj; simpa using hpmj
+    have hsel : ∀ j', p ≤ j' → j' < j → selAt sl j' = true := by
+      intro j' h1 h2
+      have := hbefore j' h1 h2
+      rw [pmAt_inv hinv] at this
+      simpa using this
+    simp only [Option.map_some]
+    have hs : (span sl j).s = offsetAt sl j := rfl
+    have he : (span sl j).e = offsetAt sl (j + 1) := rfl
+    by_cases hpj' : p = j
+    · -- empty run: the line at the scan position is unselected
+      subst hpj'
+      refine ⟨{ st with pos := offsetAt sl (p + 1) }, v, p + 1, ?_,
+        ⟨hF.inv.of_fields rfl rfl rfl rfl rfl rfl rfl, by have := hF.vp; omega, ?_, hF.acl, rfl⟩, by omega, by omega⟩
+      · simp [hs, he, hF.pos]
+      · intro j' h1 h2
+        by_cases h : j' = p
+        · subst h; exact hsj
+        · exact hF.unsel j' h1 (by omega)
+    · have hlt : p < j := by omega
+      have hIm : Inv cfg sl v { st with pos := offsetAt sl (j + 1), hasMatched := true } :=
+        hF.inv.of_fields rfl rfl rfl rfl rfl rfl rfl
+      obtain ⟨st1, st2, st3, e1, e2, e3, hI3, hacl3, hpos3⟩ :=
+        invert_run L ht hbin hpt hIm hF.vp hlt (by omega) hF.unsel hsel hF.acl
+      refine ⟨st3, j, j + 1, ?_, ⟨hI3, by omega, ?_, ?_, hpos3⟩, by omega, by omega⟩
+      · have hne : ¬ ((offsetAt sl j - st.pos == 0) = true) := by
+          have := L.off_lt hlt (by omega)
+          rw [hF.pos]; simp; omega
+        simp only [hs, he, hne]
+        rw [hF.pos] at *
+        simp only [e1, e2]
+        exact e3
+      · intro j' h1 h2
+        have : j' = j := by omega
+        subst this; exact hsj
+      · rw [hacl3]
+        have := hsel (j - 1) (by omega) (by omega)
+        have h2 := aclOK_match (A := cfg.afterContext) this
+        have e : j - 1 + 1 = j := by omega
+        rw [e] at h2; exact h2
+
+
+/-- the fast loop with inversion (`stop_on_nonmatch` never reaches it: that combination takes the slow path) -/
+theorem fastLoop_inv (L : Layout t buf sl) (ht : cfg.lineTerm.asByte = t) (hbin : cfg.binary = .none)
+    (hpt : cfg.passthru = false) (hlen : buf.length = offsetAt sl sl.length)
+    (hinv : cfg.invertMatch = true) (hstop : cfg.stopOnNonmatch = false) (hfind : FindSpec cfg m buf sl) :
+    ∀ (fuel p v : Nat) (st : Core), FastInv cfg sl v p st → p ≤ sl.length → sl.length - p < fuel →
+      ∃ st' v', fastLoop cfg m allCont buf fuel st = (st', .ok none) ∧ EndInv cfg sl v' st' := by
+  intro fuel
+  induction fuel with
+  | zero => intro p v st _ _ h; omega
+  | succ fuel ih =>
+    intro p v st hF hp hfuel
+    have hd : (buf.drop st.pos).isEmpty = decide (p = sl.length) := by
+      rw [hF.pos]; exact drop_isEmpty_iff L hlen hp
+    rw [fastLoop, hd]
+    by_cases hpn : p = sl.length
+    · subst hpn
+      exact ⟨st, v, by simp, ⟨hF.inv, hF.vp, hF.unsel, hF.acl⟩⟩
+    · simp only [hpn, decide_false, Bool.false_eq_true, if_false, hstop, Bool.false_and, hinv, if_true]
+      obtain ⟨st1, v1, p1, e1, hF1, hlt, hle⟩ := fast_iter_inv L ht hbin hpt hlen hinv hfind hF (by omega)
+      obtain ⟨st', v', e', hE'⟩ := ih p1 v1 st1 hF1 hle (by omega)
+      exact ⟨st', v', by rw [e1]; exact e', hE'⟩
+
+/-- `match_by_line_fast` on the whole buffer, no `stop_on_nonmatch`: afterwards all lines are decided -/
+theorem matchByLineFast_spec (L : Layout t buf sl) (ht : cfg.lineTerm.asByte = t) (hbin : cfg.binary = .none)
+    (hpt : cfg.passthru = false) (hlen : buf.length = offsetAt sl sl.length)
+    (hstop : cfg.stopOnNonmatch = false) (hfind : FindSpec cfg m buf sl)
+    {st : Core} (hF : FastInv cfg sl 0 0 st) :
+    ∃ st', matchByLineFast cfg m allCont buf st = (st', .ok .continue_) ∧ st'.pos = buf.length ∧
+      st'.binaryByteOffset = none ∧
+      st'.events = Event.begin :: (List.range sl.length).flatMap (lineEvents cfg sl) := by
+  have hn : sl.length ≤ buf.length := by
+    rw [hlen, ← off_flat, ← lsOf_length sl, List.take_length]
+    exact L.good.length_le
+  obtain ⟨st1, v1, e1, hE1⟩ : ∃ st' v', fastLoop cfg m allCont buf (buf.length + 1) st = (st', .ok none) ∧
+      EndInv cfg sl v' st' := by
+    cases hi : cfg.invertMatch
+    · exact fastLoop_noninv L ht hbin hpt hlen hi hstop hfind _ 0 0 st hF (Nat.zero_le _) (by omega)
+    · exact fastLoop_inv L ht hbin hpt hlen hi hstop hfind _ 0 0 st hF (Nat.zero_le _) (by omega)
+  obtain ⟨st2, e2, hI2, hacl2, haclok2, hf2⟩ :=
+    afterCtx_step L ht hbin hE1.inv hE1.vn (Nat.le_refl _) hE1.unsel hE1.acl
+  rw [← hlen] at e2
+  refine ⟨{ st2 with pos := buf.length }, ?_, rfl, hI2.bin, ?_⟩
+  · unfold matchByLineFast
+    rw [e1]
+    simp only [e2]
+  · show st2.events = _
+    have hvn := hE1.vn
+    have hskip : ∀ j, v1 + min st1.afterContextLeft (sl.length - v1) ≤ j → j < sl.length →
+        kindAt cfg sl j = none := by
+      intro j h1 h2
+      exact kind_none haclok2 h1 (hE1.unsel.mono (by omega) (Nat.le_refl _)) h2 (by rw [hacl2]; omega) hpt
+        (Or.inr (Nat.le_refl _))
+    rw [hI2.ev, flatMap_skip cfg sl (v1 + min st1.afterContextLeft (sl.length - v1)) sl.length (by omega) hskip]
 
 end
 end RgVerif.Searcher
